@@ -28,6 +28,10 @@ module Nat :
 
   val ltb : int -> int -> bool
 
+  val max : int -> int -> int
+
+  val min : int -> int -> int
+
   val divmod : int -> int -> int -> int -> int * int
 
   val div : int -> int -> int
@@ -279,6 +283,49 @@ val matmul :
   scalar -> cfg -> ety -> int -> int -> int -> (int -> t) -> (int -> t) ->
   (int -> t) -> int -> t
 
+val tG : int
+
+val tL : int
+
+val tU : int
+
+val find_kfirst : int -> int -> int -> int -> int
+
+val find_klast : int -> int -> int -> int -> int -> int -> int -> int
+
+type btile = { bt_rows : int list; bt_cols : (int * ckind) list; bt_i : 
+               int; bt_R : int; bt_j : int; bt_C : int; bt_tagged : bool }
+
+val bt_kfirst : int -> int -> btile -> int
+
+val bt_klast : int -> int -> int -> btile -> int
+
+val ttile_wr :
+  scalar -> int -> int -> int -> (int -> t) -> (int -> t) -> int -> int ->
+  int -> (int * ckind) -> wr
+
+val btile_wrs :
+  scalar -> int -> int -> int -> int -> int -> (int -> t) -> (int -> t) ->
+  btile -> wr list
+
+val col_blocks :
+  int -> int -> int -> bool -> bool -> bool -> bool -> int list -> int -> int
+  -> btile list
+
+val tmatmul_tiles : cfg -> ety -> bool -> int -> int -> btile list
+
+val tmatmul_masked : cfg -> ety -> int -> bool
+
+val tmatmul_naive_tiles : int -> int -> btile list
+
+val tmatmul_wrs :
+  scalar -> cfg -> ety -> int -> int -> int -> int -> int -> (int -> t) ->
+  (int -> t) -> wr list
+
+val tmatmul :
+  scalar -> cfg -> ety -> int -> int -> int -> int -> int -> (int -> t) ->
+  (int -> t) -> (int -> t) -> int -> t
+
 val run_matmul_Z :
   cfg -> ety -> int -> int -> int -> z list -> z list -> z list
 
@@ -287,3 +334,10 @@ val run_matmul_C :
   list
 
 val run_best_vsize : cfg -> int list list
+
+val run_tmatmul_Z :
+  cfg -> ety -> int -> int -> int -> int -> int -> z list -> z list -> z list
+
+val run_tmatmul_C :
+  cfg -> ety -> int -> int -> int -> int -> int -> (z * z) list -> (z * z)
+  list -> (z * z) list
